@@ -7,6 +7,7 @@ import (
 	"time"
 
 	"github.com/conduitio/conduit/pkg/foundation/cerrors"
+	lifecyclev1 "github.com/conduitio/conduit/pkg/lifecycle"
 	"github.com/conduitio/conduit/pkg/pipeline"
 )
 
@@ -17,8 +18,8 @@ func init() {
 	verifRegister("VerifLifecycleUserStopVsFailure", VerifLifecycleUserStopVsFailure)
 }
 
-func lRecovery(maxRetries int64) ErrRecoveryCfg {
-	return ErrRecoveryCfg{MinDelay: 1000, MaxDelay: 2000, BackoffFactor: 2, MaxRetries: maxRetries, MaxRetriesWindow: 5000}
+func lRecovery(maxRetries int64) lifecyclev1.ErrRecoveryCfg {
+	return lifecyclev1.ErrRecoveryCfg{MinDelay: 1000, MaxDelay: 2000, BackoffFactor: 2, MaxRetries: maxRetries, MaxRetriesWindow: 5000}
 }
 
 // VerifLifecycleStop: start, let records flow, StopAndWait at a chosen point
